@@ -105,6 +105,9 @@ pub trait Sut {
     fn remove(&self, k: u64) -> Result<(), String>;
     /// (value, ValueRef::ttl)
     fn get(&self, k: u64) -> Option<(Val, Duration)>;
+    /// look up, keep the reference, let `advance` move the clock, read the ttl again:
+    /// (value, ttl at lookup, ttl afterwards)
+    fn get_hold(&self, k: u64, advance: &dyn Fn()) -> Option<(Val, Duration, Duration)>;
     /// value seen; optionally overwritten in place
     fn get_mut(&self, k: u64, write: Option<Val>) -> Option<Val>;
     fn get_ttl(&self, k: u64) -> Option<Duration>;
@@ -209,6 +212,13 @@ impl Sut for SyncSut {
     }
     fn get(&self, k: u64) -> Option<(Val, Duration)> {
         self.cache.get(&k).map(|r| (*r.value(), r.ttl()))
+    }
+    fn get_hold(&self, k: u64, advance: &dyn Fn()) -> Option<(Val, Duration, Duration)> {
+        self.cache.get(&k).map(|r| {
+            let t1 = r.ttl();
+            advance();
+            (*r.value(), t1, r.ttl())
+        })
     }
     fn get_mut(&self, k: u64, write: Option<Val>) -> Option<Val> {
         self.cache.get_mut(&k).map(|mut r| {
@@ -499,6 +509,13 @@ impl Sut for AsyncSut {
     }
     fn get(&self, k: u64) -> Option<(Val, Duration)> {
         self.now(self.cache.get(&k)).map(|r| (*r.value(), r.ttl()))
+    }
+    fn get_hold(&self, k: u64, advance: &dyn Fn()) -> Option<(Val, Duration, Duration)> {
+        self.now(self.cache.get(&k)).map(|r| {
+            let t1 = r.ttl();
+            advance();
+            (*r.value(), t1, r.ttl())
+        })
     }
     fn get_mut(&self, k: u64, write: Option<Val>) -> Option<Val> {
         self.now(self.cache.get_mut(&k)).map(|mut r| {
